@@ -821,6 +821,10 @@ func (s *Session) evalCall(se *SpecEnv, x *SCall) Val {
 		case "unixsec": // Unix() of a time.Time: floor(unixnano / 1e9)
 			v := s.evalSpec(se, x.Args[0])
 			return untypedInt(app(SInt, "div", s.unixNano(v), I(1000000000)))
+		case "strcat": // strcat(a, b): the concatenation a + b of two strings (the engine's uninterpreted concatenation)
+			a := s.evalSpec(se, x.Args[0])
+			b := s.evalSpec(se, x.Args[1])
+			return scalar(types.Typ[types.String], s.uf("strcat", SInt, a.T0(), b.T0()))
 		case "lastnow": // nanosecond reading of the most recent time.Now() call
 			return untypedInt(Select(s.ghostGet(se.st, "evres"), s.strLit("time.Now")))
 		case "keycmp": // keycmp(a, b): bytes.Compare on []byte values (three-way order on the denoted strings)
